@@ -83,14 +83,21 @@ def check(run):
         "TLC bounds: 3 goroutines x 2 names x 2 Lock/Unlock rounds (liveness: see stages); trace configs unbounded",
         "replay parks goroutines at the gate before mu.Lock(), real blocking inside sync.Mutex happens only in the free runs",
     ]
-    # M: design level, exhaustive
-    if not os.environ.get("X_MUTEX_DEV_SKIP_MC"):
-        model_stage(run, thorough)
-    binding_stage(run, thorough)
+    # without the hook commit the driver cannot step or observe anything (every step would look like a hang)
+    src = open(os.path.join(REPO, "util/namedmutex/namedmutex.go")).read()
+    missing = [h for h in ("namedmutex.lock.sec", "namedmutex.lock.acquire", "namedmutex.unlock.sec", "namedmutex.unlock.release") if h not in src]
+    if missing:
+        raise Inconclusive("verifhook calls missing in %s/util/namedmutex/namedmutex.go: %s (cherry-pick the 'verifhook: ... (namedmutex.*)' commit)" % (REPO, missing))
+    model_stage(run, thorough)      # M: design level, exhaustive
+    binding_stage(run, thorough)    # R/T: replay + free runs, trace validation + monitor
 
 
 def model_stage(run, thorough):
     run.tlc_mc("NamedMutex", "NamedMutex_mc.cfg", None, workers=8 if thorough else 4, timeout=1800)
+    if thorough:
+        run.tlc_mc("NamedMutex", "NamedMutex_mc.cfg", {"Names": '{"a", "b", "c"}'}, workers=8, timeout=3000, name="NamedMutex_mc.cfg 3x3 names x2")
+        run.tlc_mc("NamedMutex", "NamedMutex_mc.cfg", {"Gor": "{1, 2, 3, 4}", "Names": '{"a", "b", "c"}', "Rounds": "1"}, workers=8, timeout=3000,
+                   name="NamedMutex_mc.cfg 4 goroutines x3 names x1")
     # positive control: the other order of Unlock (release the per-name mutex, then decrement) is safe as well
     run.tlc_mc("NamedMutex", "NamedMutex_mc.cfg", {"UnlockOrder": '"mu_first"'}, workers=4, timeout=1800, name="NamedMutex_mc.cfg mu_first")
     # vacuity guards: each switched-off guard must produce two holders of one name
@@ -128,7 +135,7 @@ def binding_stage(run, thorough):
     write_json(inp, jobs)
     free = os.path.join(run.scratch, "free.ndjson")
     free_gor = 6
-    rc, out = run.go_test("", "./util/namedmutex/", OVERLAY, "^TestVerif(Replay|Free)$", timeout=900,
+    rc, out = run.go_test("", "./util/namedmutex/", OVERLAY, "^TestVerif(Replay|Free)$", timeout=1500 if thorough else 600,
                           env={"VERIF_IN": inp, "VERIF_FREE_OUT": free, "VERIF_FREE_GOR": str(free_gor),
                                "VERIF_FREE_TRACES": "150" if thorough else "25", "VERIF_FREE_OPS": "10"})
     if rc != 0:
@@ -140,7 +147,9 @@ def binding_stage(run, thorough):
             run.violation("datarace:%s" % where, "data race / concurrent map access reported under the NamedMutex driver (%s)" % where,
                           {"log": (m.group(0) if m else out[-6000:])})
         elif "unlock of unlocked mutex" in out:
-            run.violation("fatal:unlock-of-unlocked-mutex", "a paired Unlock killed the process: sync: unlock of unlocked mutex", {"log": tail})
+            run.violation("fatal:unlock-of-unlocked-mutex", "an Unlock killed the process (fatal error: sync: unlock of unlocked mutex)", {"log": tail})
+        elif "VERIF free-run blocked" in out:
+            run.violation("hang:free-run", "free-running goroutines that pair Lock/Unlock blocked for ever", {"log": tail})
         elif "test timed out" in out and "namedmutex.(*NamedMutex)" in out:
             run.violation("hang:free-run", "free-running goroutines blocked for ever inside NamedMutex.Lock/Unlock", {"log": out[-8000:]})
         else:
